@@ -72,6 +72,22 @@ type Exec struct {
 	nameTypes     map[string]types.Type
 	kindUsed      bool
 	inSpec        int
+	noWriteCheck  int
+	curFrame      *Frame
+	recycledCells []recycledCell
+	mixN          int
+	mixInfo       map[string]mixRec
+	descAxiom     bool
+	curStateForOwner *State
+	topFrame      *Frame
+	explTargets   map[string][]*Term
+	pooledCl      map[string]bool
+	arrEmb        []string
+	faFieldType   map[string]string
+	childSeen     map[string]bool
+	childrenOf    map[int][]*Term
+	arrOwnerHint  map[int]*Term
+	valOrigin     map[int]*Term
 	inlineMemo    map[*ssa.Function]bool
 	jsonSeen      map[int]bool
 	oblFacts      map[int]bool
@@ -101,6 +117,13 @@ func NewExec(p *Prog, fn *ssa.Function) *Exec {
 	}
 	x.strLits = map[string]string{}
 	x.ownObjs = map[int]bool{}
+	x.mixInfo = map[string]mixRec{}
+	x.faFieldType = map[string]string{}
+	x.childSeen = map[string]bool{}
+	x.childrenOf = map[int][]*Term{}
+	x.arrOwnerHint = map[int]*Term{}
+	x.valOrigin = map[int]*Term{}
+	x.registerFieldAddrs()
 	x.inlineMemo = map[*ssa.Function]bool{}
 	x.jsonSeen = map[int]bool{}
 	x.oblFacts = map[int]bool{}
@@ -201,6 +224,8 @@ func (x *Exec) runOnce(tag, caseParam string, caseLen int) {
 	fn := x.fn
 	st := x.newEntryState()
 	fr := &Frame{fn: fn, con: x.con, lf: x.prog.LoopsOf(fn), tag: tag}
+	x.topFrame = fr
+	x.explTargets = nil
 	// parameters
 	for _, p := range fn.Params {
 		v := x.fresh("p$"+p.Name(), p.Type())
@@ -226,9 +251,28 @@ func (x *Exec) runOnce(tag, caseParam string, caseLen int) {
 	x.curPC = st.pc
 	fr.entry = st.clone()
 	x.entryState = fr.entry
+	if rt := x.recvTerm(fr); rt != nil && len(x.prog.Cons.ValidatorTypes) > 0 {
+		x.addFactRaw(x.descT(rt, rt))
+	}
+	// implicit precondition: validator / Result objects passed in are live (not sitting in a pool)
+	for i, p := range fn.Params {
+		if x.isLiveTrackedPtr(p.Type()) && !x.isRedeemFunc(fn) {
+			pt := asTerm(fr.args[i])
+			red := x.tt.Select(x.heap(st, "G$redeemed", arraySort("Int", "Bool")), pt)
+			x.addFactRaw(x.tt.Or(x.tt.Eq(pt, x.tt.IntLit(0)), x.tt.Not(red)))
+		}
+	}
 	// implicit precondition: a pointer receiver that the body never compares with nil is non-nil
 	if x.prog.implicitRecvNonNil(fn) {
 		x.addFactRaw(x.tt.Not(x.tt.Eq(asTerm(fr.args[0]), x.tt.IntLit(0))))
+	}
+	// global axioms about package-level state
+	for _, c := range x.prog.Cons.Axioms {
+		func() {
+			defer func() { recover() }()
+			env := x.contractEnv(fr, st, fr.entry, nil)
+			x.addFactRaw(x.evalBool(env, c.Expr))
+		}()
 	}
 	// requires
 	if x.con != nil {
@@ -240,6 +284,26 @@ func (x *Exec) runOnce(tag, caseParam string, caseLen int) {
 		for _, c := range x.con.Assumes {
 			env := x.contractEnv(fr, st, fr.entry, nil)
 			x.addFactRaw(x.evalBool(env, c.Expr))
+		}
+	}
+	// lemmas about opaque predicates are proved where the predicate is revealed
+	if x.con != nil {
+		for _, pn := range x.con.Reveal {
+			p := x.prog.Cons.Preds[pn]
+			if p == nil {
+				continue
+			}
+			for k, lm := range x.prog.Cons.Lemmas[pn] {
+				env := &Env{x: x, st: st, old: fr.entry, vars: map[string]Value{}, vtypes: map[string]types.Type{}, fr: fr}
+				for i, prm := range p.Params {
+					T := x.lookupType(p.PTypes[i])
+					env.vars[prm] = x.fresh("lemma$"+prm, T)
+					env.vtypes[prm] = T
+				}
+				cond := x.evalBool(env, lm.Expr)
+				body := x.evalBool(env, p.Body)
+				x.oblige(fr, st, "lemma", fmt.Sprintf("%s:%d", pn, k+1), fr.con.frameTags(), x.tt.Implies(cond, body), "lemma: "+pn+" holds if "+lm.Text)
+			}
 		}
 	}
 	x.runBody(fr, st)
@@ -591,6 +655,7 @@ func (x *Exec) runLoopInv(fr *Frame, L *Loop, ins []edge, spec *LoopSpec) []edge
 	rec := &writeRecorder{}
 	x.recorders = append(x.recorders, rec)
 	x.quiet = true
+	x.noWriteCheck++
 	dry := pre.clone()
 	for _, n := range x.allHeapNames(dry) {
 		if h, ok := dry.heaps[n]; ok {
@@ -609,6 +674,7 @@ func (x *Exec) runLoopInv(fr *Frame, L *Loop, ins []edge, spec *LoopSpec) []edge
 	x.runRegionFromHeader(fr, L, dry)
 	sawHavocAll := x.havocAllCount != dryHavocAll
 	x.recorders = x.recorders[:len(x.recorders)-1]
+	x.noWriteCheck--
 	x.quiet = savedQuiet
 	x.facts = x.facts[:savedFacts]
 	for k := range x.oblFacts {
@@ -707,12 +773,15 @@ func (x *Exec) runLoopInv(fr *Frame, L *Loop, ins []edge, spec *LoopSpec) []edge
 		allowed := map[string][]*Term{}
 		wholeOK := map[string]bool{}
 		x.inSpec++
+		envL := x.contractEnv(fr, pre, fr.entry, nil)
 		for _, m := range fr.con.Modifies {
-			for _, t := range env0.lvalueTargets(m) {
-				if t.whole {
-					wholeOK[t.heap] = true
-				} else {
-					allowed[t.heap] = append(allowed[t.heap], t.idx)
+			for _, ev := range []*Env{env0, envL} {
+				for _, t := range ev.lvalueTargets(m) {
+					if t.whole {
+						wholeOK[t.heap] = true
+					} else {
+						allowed[t.heap] = append(allowed[t.heap], t.idx)
+					}
 				}
 			}
 		}
@@ -722,7 +791,8 @@ func (x *Exec) runLoopInv(fr *Frame, L *Loop, ins []edge, spec *LoopSpec) []edge
 			for _, a := range allowed[name] {
 				out = append(out, tt.Eq(p, a))
 			}
-			out = append(out, tt.Ge(tt.UF("birth$", "Int", p), fr.entry.clk))
+			// objects created since the loop was entered may be written freely
+			out = append(out, tt.Ge(tt.UF("birth$", "Int", p), pre.clk))
 			return out
 		}
 		for _, n := range hnames {
@@ -813,9 +883,14 @@ func (x *Exec) finish(fr *Frame) {
 	if rs != nil && fr.depth == 0 {
 		x.curPC = rs.st.pc
 		x.checkTypeInvs(fr, rs.st)
+		x.checkInitComplete(fr, rs.st)
 	}
 	if rs != nil && con != nil {
 		x.curPC = rs.st.pc
+		for _, c := range con.AssumeResult {
+			env := x.contractEnv(fr, rs.st, fr.entry, rs.vals)
+			x.addFact(x.evalBool(env, c.Expr))
+		}
 		for _, c := range con.Ensures {
 			env := x.contractEnv(fr, rs.st, fr.entry, rs.vals)
 			g := x.evalBool(env, c.Expr)
@@ -838,7 +913,9 @@ func (x *Exec) finish(fr *Frame) {
 				x.oblige(fr, rs.st, "ensures", fmt.Sprintf("%d", c.Ord), c.Tags, g, c.Text)
 			}
 		}
-		if con.HasModifies && !con.ModAll {
+		if con.Effects == "validation" {
+			// writes and callee effects were checked where they happen (write-ok / call-effects obligations)
+		} else if con.HasModifies && !con.ModAll {
 			x.checkFrame(fr, rs.st)
 		}
 	}
@@ -903,4 +980,81 @@ func (x *Exec) assumeValExisting(st *State, v *Term) {
 	}
 	x.addFactRaw(tt.Implies(tt.Is("vslice", v), tt.Lt(tt.UF("birth$", "Int", x.sArr(tt.Sel("v-l", "vslice", "Slice", v))), st.clk)))
 	x.addFactRaw(tt.Implies(tt.Is("vptr", v), tt.Lt(tt.UF("birth$", "Int", tt.Sel("v-p", "vptr", "Int", v)), st.clk)))
+}
+
+// recvTerm: receiver of the function under verification when it is a method of a validator type.
+func (x *Exec) recvTerm(fr *Frame) *Term {
+	fn := fr.fn
+	if fn.Signature.Recv() == nil || len(fr.args) == 0 {
+		return nil
+	}
+	if !x.isValidatorPtrType(fn.Params[0].Type()) {
+		return nil
+	}
+	t, _ := fr.args[0].(*Term)
+	return t
+}
+
+func (x *Exec) isLiveTrackedPtr(T types.Type) bool {
+	if len(x.prog.Cons.ValidatorTypes) == 0 {
+		return false
+	}
+	p, ok := T.Underlying().(*types.Pointer)
+	if !ok {
+		return false
+	}
+	tn := typeName(p.Elem())
+	return x.isValidatorTypeName(tn) || tn == "Result"
+}
+
+// isRedeemFunc: the pool functions state their own liveness requirements.
+func (x *Exec) isRedeemFunc(fn *ssa.Function) bool {
+	return strings.HasPrefix(fn.Name(), "Redeem") || strings.HasPrefix(fn.Name(), "Borrow")
+}
+
+type recycledCell struct {
+	obj   *Term
+	heap  string
+	idx   *Term
+	stale *Term // the unknown content the recycled object arrived with
+	cond  *Term
+}
+
+// checkInitComplete: no field of a recycled validator object that is still live at exit depends on the content the
+// object had when it came out of the pool (two-copy non-interference: replacing the stale content by two different
+// unknowns gives the same field values).
+func (x *Exec) checkInitComplete(fr *Frame, st *State) {
+	if len(x.recycledCells) == 0 {
+		return
+	}
+	tt := x.tt
+	m1, m2 := map[*Term]*Term{}, map[*Term]*Term{}
+	for _, c := range x.recycledCells {
+		m1[c.stale] = tt.Fresh("copyA", c.stale.Sort)
+		m2[c.stale] = tt.Fresh("copyB", c.stale.Sort)
+	}
+	red := x.heap(st, "G$redeemed", arraySort("Int", "Bool"))
+	seen := map[string]bool{}
+	for _, c := range x.recycledCells {
+		key := fmt.Sprintf("%s|%d", c.heap, c.idx.id)
+		if seen[key] {
+			continue
+		}
+		seen[key] = true
+		cur, ok := st.heaps[c.heap]
+		if !ok {
+			continue
+		}
+		v := tt.Select(cur, c.idx)
+		va, vb := tt.Subst(v, m1), tt.Subst(v, m2)
+		if va == vb {
+			x.oblige(fr, st, "init-complete", c.heap, []string{"C04"}, tt.True(), "field of a recycled object does not depend on its previous content")
+			continue
+		}
+		pcA, pcB := tt.Subst(st.pc, m1), tt.Subst(st.pc, m2)
+		live := tt.Not(tt.Select(red, c.obj))
+		g := tt.Implies(tt.And(pcA, pcB, tt.Subst(c.cond, m1), tt.Subst(live, m1)), tt.Eq(va, vb))
+		o := x.obligeNoAssume(fr, &State{pc: tt.True()}, "init-complete", c.heap, []string{"C04"}, g, "field of a recycled object does not depend on the content it had in the pool (every field is re-initialised)")
+		_ = o
+	}
 }
